@@ -161,6 +161,18 @@ CLAIMED = {
         "technique": "Lean 4 proof (digits, range membership, separator translation) + exhaustive/generated differential correspondence",
         "design_ref": "DESIGN.md §6 C02",
     },
+    "C09": {
+        "text": "Lean 4 theorems (Props/C09.lean) about the transcription of Cid.read (a fold over rows with a line cursor): comment rows are ignored anywhere "
+                "(C09_decoration_comment), cells beyond the parsed columns are ignored, the row marker is case-insensitive, each row only appends one field / one "
+                "check or updates the format (field order preserved), every rejection carries the line of the offending row, an accepted CID has a consistent "
+                "format and at least one field. Correspondence: generated valid CIDs of all formats and all 8 field types, 3 decoration stacks each (identical "
+                "interface required), and ~55 structural defects injected at every applicable row (interface error at exactly that row required), all also "
+                "compared with the Lean model's outcome and error line.",
+        "note": "Trusted: Lean kernel; Cid model faithfulness (no disagreement on ~5.4k CIDs per quick run, error line included); that each catalogued defect is rejected "
+                "is shown by enumeration, not by a per-defect theorem; the class registry (__subclasses__) is a parameter.",
+        "technique": "Lean 4 proof (fold invariants of the CID reader) + generated/decorated/defect-injected CID correspondence",
+        "design_ref": "DESIGN.md §6 C09",
+    },
 }
 
 NOT_YET = {
